@@ -518,12 +518,21 @@ class H2Server(Peer):
     def start(self) -> None:
         if not self.started:
             self.started = True
+            later = {}
             if self.settings:
                 import h2.settings
 
-                # advertised in the very first SETTINGS frame
-                self.conn.local_settings = h2.settings.Settings(client=False, initial_values=dict(self.settings))
+                first = dict(self.settings)
+                # MAX_FRAME_SIZE must go through update_settings so that the
+                # server's own frame-size limit follows the acknowledgement
+                mfs = h2.settings.SettingCodes.MAX_FRAME_SIZE
+                if mfs in first:
+                    later[mfs] = first.pop(mfs)
+                # the rest is advertised in the very first SETTINGS frame
+                self.conn.local_settings = h2.settings.Settings(client=False, initial_values=first)
             self.conn.initiate_connection()
+            if later:
+                self.conn.update_settings(later)
 
     def flush(self) -> None:
         self.out += self.conn.data_to_send()
